@@ -156,6 +156,8 @@ pub struct Class {
     pub guard: Option<DualMSM<E>>,
     pub summary: Option<F>,
     pub each: String,
+    /// operations of `prepare` on the member's own transcript, stand-alone (recording hash)
+    pub trace: Vec<Ev>,
 }
 
 pub struct Real {
@@ -342,14 +344,19 @@ impl Real {
                 "panic".to_string()
             }
         };
-        let mut c = Class { tag: String::new(), guard: None, summary: None, each };
+        let mut c = Class { tag: String::new(), guard: None, summary: None, each, trace: vec![] };
         if m.pi.len() != rel.npi {
             c.tag = "L".into();
         } else {
-            let mut t = CircuitTranscript::<Blake2bState>::init_from_bytes(&m.proof);
+            // the recording hash is byte-for-byte the Blake2b transcript hash: same guard, same
+            // challenges; its log is the member's own schedule (key representation, instances,
+            // proof elements, challenges) as a stand-alone `prepare` performs it
+            rec::reset(None);
+            let mut t = CircuitTranscript::<RecH>::init_from_bytes(&m.proof);
             let r = catch(|| {
-                prepare::<F, KZGCommitmentScheme<E>, CircuitTranscript<Blake2bState>>(rel.vk.vk(), &[&[G::identity()]], &[&[&m.pi]], &mut t)
+                prepare::<F, KZGCommitmentScheme<E>, CircuitTranscript<RecH>>(rel.vk.vk(), &[&[G::identity()]], &[&[&m.pi]], &mut t)
             });
+            c.trace = rec::take_log().into_iter().filter(|(id, e)| *id == 0 && *e != Ev::Init).map(|(_, e)| e).collect();
             match r {
                 Err(_) => c.tag = "P".into(),
                 Ok(Err(e)) => c.tag = format!("E:{}", err_name(&e)),
@@ -468,6 +475,56 @@ impl Real {
             seen_cl.iter().map(|c| match c.summary { Some(s) => format!("{}@{}", c.tag, fe_hex(&s)), None => c.tag.clone() }).collect::<Vec<_>>().join(" ")
         );
         ctx.case("rsched", nv > 0, sched.trim_end(), &if ev0.is_empty() { "-".to_string() } else { ev0.join(" ") });
+        // ---- every hasher operation in program order (kinds, byte lengths, which transcript):
+        // the model composes the members' stand-alone schedules; `r` must come last
+        let ev_tok = |e: &Ev| match e {
+            Ev::Init => (0usize, 0usize),
+            Ev::Absorb(b) => (1, b.len()),
+            Ev::Squeeze(_) => (2, 0),
+        };
+        let gline = format!(
+            "gsched {np} {npr} {}",
+            seen_cl
+                .iter()
+                .map(|c| {
+                    let stage = match c.tag.as_str() { "L" => 0, "T" => 2, "G" | "B" => 3, _ => 1 };
+                    let tr: Vec<String> = c.trace.iter().map(|e| { let (k, l) = ev_tok(e); format!("{k}/{l}") }).collect();
+                    format!("{stage}:{}", mzkh::join(&tr))
+                })
+                .collect::<Vec<_>>()
+                .join(" ")
+        );
+        let gall: Vec<String> = log.iter().map(|(id, e)| { let (k, l) = ev_tok(e); format!("{id}.{k}.{l}") }).collect();
+        ctx.case("gsched", nv > 0, gline.trim_end(), &if gall.is_empty() { "-".to_string() } else { gall.join(" ") });
+        // what member i absorbs inside the batch is, byte for byte, what it absorbs stand-alone,
+        // and the scalar absorbed into the batching transcript after it is ITS summary
+        if lens_ok {
+            let mut absorbed0 = log.iter().filter_map(|(id, e)| match (id, e) { (0, Ev::Absorb(b)) => Some(b.clone()), _ => None });
+            for (i, c) in seen_cl.iter().enumerate() {
+                let own: Vec<&Ev> = log.iter().filter(|(id, e)| *id == i + 1 && *e != Ev::Init).map(|(_, e)| e).collect();
+                if own.is_empty() && c.tag == "L" {
+                    break;
+                }
+                let n = c.trace.len().min(own.len());
+                if own.len() < c.trace.len() || own[..n].iter().zip(c.trace.iter()).any(|(a, b)| **a != *b) {
+                    fail_limited(ctx, "batch_verify:member-transcript-differs", "inside batch_verify a member's transcript does not absorb/squeeze what its stand-alone prepare does", json!({"member": i, "batch": detail}));
+                }
+                if let Some(s) = c.summary {
+                    match absorbed0.next() {
+                        Some(b) if b == s.to_repr().as_ref() => ctx.count("gsched:summary-absorbed-in-position"),
+                        _ => fail_limited(ctx, "batch_verify:summary-not-absorbed", "the batching transcript does not absorb the member's summary challenge at the member's position", json!({"member": i, "batch": detail})),
+                    }
+                }
+                if !(c.tag == "G" || c.tag == "B") {
+                    break;
+                }
+            }
+            // r is squeezed after the LAST absorption, and only once
+            let pos_sq: Vec<usize> = log.iter().enumerate().filter(|(_, (id, e))| *id == 0 && matches!(e, Ev::Squeeze(_))).map(|(i, _)| i).collect();
+            if seen_cl.iter().all(|c| c.tag == "G" || c.tag == "B") && (pos_sq.len() != 1 || pos_sq[0] != log.len() - 1) {
+                fail_limited(ctx, "batch_verify:r-not-last", "the batching challenge is not squeezed after every member's transcript operations", json!({"squeezes_at": pos_sq, "log_len": log.len(), "batch": detail}));
+            }
+        }
         // ---- the actual challenge r, the model of the loop at that r, replay of the loop
         let r = log.iter().find_map(|(id, e)| match (id, e) {
             (0, Ev::Squeeze(o)) => Some(rec::sample_fq(o)),
